@@ -1044,12 +1044,22 @@ func (ev *Env) evalCall(x *ECall) Value {
 		}
 		return Scalar{t, "Bool", types.Typ[types.Bool]}
 	case "oncedone":
-		v := arg(0)
+		var v Value
+		if u, isAddr := x.Args[0].(*EUn); isAddr && u.Op == "&" {
+			v = ev.evalPlace(u.X)
+		} else {
+			v = arg(0)
+		}
 		key, ref, _, _ := fc.lockKey(v)
 		key = "ONCE!" + strings.TrimPrefix(key, "L!")
 		return Scalar{"(select " + fc.compTerm(ev.cur(), key, "(Array Int Bool)") + " " + ref + ")", "Bool", types.Typ[types.Bool]}
 	case "held":
-		v := arg(0)
+		var v Value
+		if u, isAddr := x.Args[0].(*EUn); isAddr && u.Op == "&" {
+			v = ev.evalPlace(u.X)
+		} else {
+			v = arg(0)
+		}
 		key, ref, _, _ := fc.lockKey(v)
 		return Scalar{fc.heldTerm(ev.cur(), key, ref), "Bool", types.Typ[types.Bool]}
 	case "closed":
@@ -1061,6 +1071,14 @@ func (ev *Env) evalCall(x *ECall) Value {
 	case "chancap":
 		ch := ev.asScalar(arg(0))
 		return Scalar{"(select " + fc.compTerm(ev.cur(), "CH!cap", "(Array Int Int)") + " " + ch.T + ")", "Int", nil}
+	case "spawns":
+		// spawns(F): number of `go F(...)` statements executed
+		nm := x.Args[0].String()
+		st := ev.cur()
+		if v, ok := st.ghost["$calls:go:"+nm]; ok {
+			return v
+		}
+		return Scalar{"0", "Int", nil}
 	case "calls":
 		id, ok := x.Args[0].(*EIdent)
 		nm := ""
@@ -1161,25 +1179,11 @@ func (ev *Env) evalCall(x *ECall) Value {
 			return Scalar{sv.Base, "Int", nil}
 		}
 		ev.fail("base() of non-slice")
-	case "prefixof":
-		a, b := ev.asScalar(arg(0)), ev.asScalar(arg(1))
-		return Scalar{"(str.prefixof " + a.T + " " + b.T + ")", "Bool", types.Typ[types.Bool]}
-	case "suffixof":
-		a, b := ev.asScalar(arg(0)), ev.asScalar(arg(1))
-		return Scalar{"(str.suffixof " + a.T + " " + b.T + ")", "Bool", types.Typ[types.Bool]}
-	case "contains":
-		a, b := ev.asScalar(arg(0)), ev.asScalar(arg(1))
-		return Scalar{"(str.contains " + a.T + " " + b.T + ")", "Bool", types.Typ[types.Bool]}
-	case "indexof":
-		a, b := ev.asScalar(arg(0)), ev.asScalar(arg(1))
-		from := "0"
-		if len(x.Args) > 2 {
-			from = ev.idx(arg(2))
+	case "prefixof", "suffixof", "contains", "indexof", "substr":
+		if fc.strmode != "smtlib" {
+			ev.fail("%s needs `strings smtlib`", name)
 		}
-		return Scalar{"(str.indexof " + a.T + " " + b.T + " " + from + ")", "Int", types.Typ[types.Int]}
-	case "substr":
-		a := ev.asScalar(arg(0))
-		return Scalar{"(str.substr " + a.T + " " + ev.idx(arg(1)) + " " + ev.idx(arg(2)) + ")", "String", a.Typ}
+		return ev.evalStrFn(name, x, arg)
 	}
 	if pd := fc.eng.predFor(ev.pkg, name); pd != nil {
 		if len(x.Args) != len(pd.Params) {
@@ -1444,6 +1448,30 @@ func (fc *FuncCtx) applyGhostUpdate(ev *Env, st *State, gu *GhostUpdate) {
 // evalPlace evaluates an l-value expression (x.f, x.f.g) to a place.
 func (ev *Env) evalPlace(e Expr) PlaceV {
 	fc := ev.fc
+	if id, isId := e.(*EIdent); isId && ev.fr != nil {
+		// the variable itself (a local cell or a captured variable)
+		for _, fv := range ev.fr.fn.FreeVars {
+			if fv.Name() == id.Name {
+				if v, ok := ev.fr.vals[fv]; ok {
+					if pl, isP := v.(PlaceV); isP {
+						return pl
+					}
+				}
+			}
+		}
+		for _, b := range ev.fr.fn.Blocks {
+			for _, ins := range b.Instrs {
+				if a, ok := ins.(*ssa.Alloc); ok && a.Comment == id.Name {
+					if v, ok := ev.fr.vals[a]; ok {
+						if pl, isP := v.(PlaceV); isP {
+							return pl
+						}
+					}
+				}
+			}
+		}
+		ev.fail("cannot take the address of %s", id.Name)
+	}
 	sel, ok := e.(*ESel)
 	if !ok {
 		ev.fail("cannot take the address of %s", e.String())
@@ -1506,4 +1534,30 @@ func (ev *Env) evalPlace(e Expr) PlaceV {
 	}
 	ev.fail("no field %s in %s", sel.Name, base.Typ)
 	return PlaceV{}
+}
+
+func (ev *Env) evalStrFn(name string, x *ECall, arg func(int) Value) Value {
+	switch name {
+	case "prefixof":
+		a, b := ev.asScalar(arg(0)), ev.asScalar(arg(1))
+		return Scalar{"(str.prefixof " + a.T + " " + b.T + ")", "Bool", types.Typ[types.Bool]}
+	case "suffixof":
+		a, b := ev.asScalar(arg(0)), ev.asScalar(arg(1))
+		return Scalar{"(str.suffixof " + a.T + " " + b.T + ")", "Bool", types.Typ[types.Bool]}
+	case "contains":
+		a, b := ev.asScalar(arg(0)), ev.asScalar(arg(1))
+		return Scalar{"(str.contains " + a.T + " " + b.T + ")", "Bool", types.Typ[types.Bool]}
+	case "indexof":
+		a, b := ev.asScalar(arg(0)), ev.asScalar(arg(1))
+		from := "0"
+		if len(x.Args) > 2 {
+			from = ev.idx(arg(2))
+		}
+		return Scalar{"(str.indexof " + a.T + " " + b.T + " " + from + ")", "Int", types.Typ[types.Int]}
+	case "substr":
+		a := ev.asScalar(arg(0))
+		return Scalar{"(str.substr " + a.T + " " + ev.idx(arg(1)) + " " + ev.idx(arg(2)) + ")", "String", a.Typ}
+	}
+	ev.fail("unknown string function %s", name)
+	return nil
 }
